@@ -167,6 +167,7 @@ def parse_asm(text):
     for o in split_ops(rest):
         o0 = o
         o = re.sub(r"\{(k[0-7]|z|r[nduz]-sae|sae)\}", "", o).strip()
+        if not o: continue                        # a decoration printed as an operand of its own ("zmm7, {rd-sae}")
         o = R8ALIAS.get(o, o)
         if o in ALLREGS: ops.append(("r", o))
         elif "[" in o or re.match(r"^(\w+ ptr )?[cdefgs]s:", o) or re.search(r"\bptr\b", o): ops.append(("m", parse_mem(o), o0))
@@ -254,7 +255,7 @@ def expected_ops(o):
     return res
 
 
-def mem_same(e, d, mode):
+def mem_same(e, d, mode, lea=False):
     if d is None: return None
     asz = 64 if mode == 64 else 32
     for r in (e["base"], e["index"]):
@@ -270,7 +271,7 @@ def mem_same(e, d, mode):
             return False
         if ei != di: return False
         if ei is not None and e["scale"] != d["scale"]: return False
-    if (e["disp"] - d["disp"]) % (1 << asz) != 0: return False
+    if (e["disp"] - d["disp"]) % (1 << (32 if lea and e["base"] is None and e["index"] is None else asz)) != 0: return False
     if e["seg"] is not None and d["seg"] is not None and e["seg"] != d["seg"]: return False
     if e["seg"] in ("fs", "gs") and d["seg"] != e["seg"]: return False
     return True
@@ -278,7 +279,7 @@ def mem_same(e, d, mode):
 
 PROMOTE = {"vpand": "vpandd", "vpandn": "vpandnd", "vpor": "vpord", "vpxor": "vpxord", "vmovdqa": "vmovdqa32", "vmovdqu": "vmovdqu32"}
 # decoders print another register width for these (selector / sign-extension sources) or omit the register operand
-RELAX_REGSIZE = {"lsl", "lar", "movsxd", "nop", "str", "sldt", "smsw", "lldt", "ltr", "lmsw", "verr", "verw", "arpl", "movzx", "movsx", "mov"}
+RELAX_REGSIZE = {"lea", "lsl", "lar", "movsxd", "nop", "str", "sldt", "smsw", "lldt", "ltr", "lmsw", "verr", "verw", "arpl", "movzx", "movsx", "mov"}
 
 
 def reg_number(r):
@@ -318,7 +319,7 @@ def compare(o, parsed, immw=64, optional=()):
     dmem = [x[1] for x in dec if x[0] == "m"]
     if emem and dmem and len(emem) == len(dmem):
         for e, d in zip(emem, dmem):
-            r = mem_same(e, d, o["m"])
+            r = mem_same(e, d, o["m"], want == "lea")
             if r is None: return "UNKNOWN:memory text " + parsed["text"]
             if not r: return f"DISAGREE:memory {d} vs requested {e}"
         for (e, x) in zip([y for y in o["ops"] if y["t"] == "m"], [y for y in dec if y[0] == "m"]):
@@ -339,6 +340,8 @@ def compare(o, parsed, immw=64, optional=()):
     if not o["k"] and k: return f"DISAGREE:mask {k} vs none"
     if bool(o["z"]) != ("z" in parsed["deco"]): return "DISAGREE:zeroing"
     er = [d for d in parsed["deco"] if d.endswith("-sae")]
+    if o["er"] >= 0 and not er and "sae" in parsed["deco"]:
+        return "UNKNOWN:the decoders know this instruction as {sae}-only (DB row carries the er flag)"
     if o["er"] >= 0 and er != [["rn-sae", "rd-sae", "ru-sae", "rz-sae"][o["er"]]]: return f"DISAGREE:rounding {er}"
     if o["er"] < 0 and er: return f"DISAGREE:rounding {er} vs none"
     return "AGREE"
@@ -602,14 +605,17 @@ def judge(ctx, forms, names, rej, what):
         corroborated, contradicted = [], []
         for (o, clause, row), (v1, v2, texts) in zip(sample, verdicts):
             agree = v1.startswith("AGREE") or (v2 or "").startswith("AGREE")
-            dis = v1.startswith("DISAGREE") and (v2 or "DISAGREE").startswith("DISAGREE")
+            dis = (v1.startswith("DISAGREE") or (v2 or "").startswith("DISAGREE")) and not agree
             if clause == "prefix-67" and 0x67 not in o["b"][:4] and not any("addr" in t for t in texts):
                 dis, agree = True, False            # implicit operand address size: the decoders print no operand; the missing 67 is the evidence
             if clause == "option-rex" and agree:
                 dis, agree = True, False            # forced REX missing: decoders read the same instruction, the option had no effect
             (corroborated if dis and not agree else contradicted).append((o, clause, row, v1, v2, texts))
         safe = re.sub(r"[^A-Za-z0-9_.-]", "_", key)[:150]
-        rp = ctx.path(f"reject_{safe}.ndjson")
+        # replay files live next to (not inside) the scratch directory: tools/check wipes out/<ID> when it starts a replay
+        rdir = ctx.out.rstrip("/") + "_replay"
+        os.makedirs(rdir, exist_ok=True)
+        rp = os.path.join(rdir, f"reject_{safe}.ndjson")
         vlib.write_ndjson(rp, [o for o, _, _ in items[:40]])
         summary[key] = {"observations": len(items), "instructions": len({o["n"] for o, _, _ in items}),
                         "corroborated": len(corroborated), "sampled": len(sample)}
@@ -680,6 +686,11 @@ DECODER_LIMITS = re.compile(r"^(aadd|aand|aor|axor|vpdp|tdp|tcmm|ttdp|ttcmm|tcon
 def run(ctx):
     q = ctx.quick
     t0 = time.time()
+    fixes = os.path.join(vlib.VERIF, "out", "C01_fixes")          # proposed minimal fixes for the findings (kept outside the wiped scratch dir)
+    if os.path.isdir(fixes):
+        for fn in sorted(os.listdir(fixes)):
+            if fn.endswith(".diff"):
+                open(ctx.path(fn), "w").write(open(os.path.join(fixes, fn)).read())
     forms, names, exrep = export_forms(ctx)
     ctx.log(f"exported {len(forms)} forms of db/isa_x86.json: {exrep['handled']} modelled, {len(forms) - exrep['handled']} listed as not modelled, "
             f"{len(exrep['quirks_applied'])} DB quirk overrides")
@@ -714,8 +725,8 @@ def run(ctx):
     # spec validation against the independent decoders
     sample, stats, quirks, bad = validate_spec(ctx, forms, ok_obs, ctx.seed)
     def limit(o):       # unknown to llvm-mc 14 / objdump 2.40: newer extensions, APX-promoted EVEX forms of kmov
-        if o["n"].startswith("bnd") and any(x["t"] == "m" and (x["bt"] == "gpw" or x["it"] == "gpw") for x in o["ops"]):
-            return True         # MPX has no 16-bit addressing (#UD): whether the assembler should accept it is C13's question
+        if o["n"].startswith("bnd") and any(x["t"] == "m" and ((x["bt"] or x["it"]) in ("gpw", "gpd" if o["m"] == 64 else "gpw")) for x in o["ops"]):
+            return True         # MPX has no 16-bit addressing (#UD) and ignores 0x67 in 64-bit mode: whether the assembler should accept it is C13's question
         return bool(DECODER_LIMITS.match(o["n"])) or (o["n"].startswith("kmov") and 0x62 in o["b"][:3])
     limits = [b for b in bad if limit(b[0])]
     bad = [b for b in bad if not limit(b[0])]
